@@ -27,6 +27,7 @@ from __future__ import annotations
 
 import copy
 import datetime as _dt
+import hashlib
 import itertools
 from fractions import Fraction
 
@@ -151,9 +152,7 @@ def judged_inspect(ref, profile, fp, rep_threshold, anergic, call, just_trained=
     elif strict_in and not silent(resp):
         v.append((f"inside-baseline-reported-{lvl}:{sig}",
                   f"fingerprint strictly inside every bound must be none/ignore; {ctx_txt}"))
-    elif escalated(resp) and not viol_perm:
-        v.append((f"escalated-without-baseline-violation:{sig}", f"expected no escalation; {ctx_txt}"))
-    elif escalated(resp) and not second:
+    elif escalated(resp) and not second:      # (not strictly inside here, so signal 1 is at least arguable)
         v.append((f"escalated-without-second-signal:{sig}",
                   f"confirmed/critical needs an independent second signal; {ctx_txt}"))
     if just_trained and not silent(resp):
@@ -505,11 +504,11 @@ def _train_work(job):
             if pos is not None:
                 positive += 1
                 boundary += bool(pos[1])
-                profiles.add((tuple(sorted(w[-cfg[2]:])), can))
+                profiles.add(hashlib.blake2b(repr((cfg, tuple(sorted(w[-cfg[2]:])), can)).encode(), digest_size=8).digest())
             for key, what in v:
                 e = viols.setdefault(key, [0, what, {"engine": "D-train", "cfg": cfg, "window": window, "canaries": can}])
                 e[0] += 1
-    return dict(cases=cases, positive=positive, boundary=boundary, outcomes=outcomes, profiles=len(profiles), viols=viols)
+    return dict(cases=cases, positive=positive, boundary=boundary, outcomes=outcomes, profiles=profiles, viols=viols)
 
 
 # ------------------------------------------------------------------------------------------------
@@ -733,9 +732,12 @@ def run(ctx):
     jobs = _train_jobs(tier)
     res, order = _pmap(ctx, _train_work, jobs)
     _merge(ctx, res, order)
+    trained = set()
     for r in res:
-        for k in ("cases", "positive", "boundary", "profiles"):
+        trained |= r["profiles"]
+        for k in ("cases", "positive", "boundary"):
             ctx.stats[f"D-train.{k}"] += r[k]
+    ctx.stats["D-train.profiles"] = len(trained)
     ctx.sample({"engine": "D-train", "cfg": TRAIN_CFGS[0], "window": [obs_alphabet(tier)[0], obs_alphabet(tier)[5]], "canaries": (True,)})
 
     # ---- A
@@ -745,8 +747,8 @@ def run(ctx):
         for i, op in enumerate(prefix):
             for key, what in model.step(st, op):
                 ctx.report(key, f"root prefix {name}: after {prefix[:i]} op {op}: {what}", {"root": [], "hist": prefix[:i], "op": op})
-    depth = 5 if tier == "quick" else 7
-    a = explore.explore(model, ctx, depth)
+    depth = 5 if tier == "quick" else 6
+    a = explore.explore(model, ctx, depth, validate_canon=100 if tier == "quick" else 400)
 
     d_exec = ctx.stats["D-tcell.cases"] + ctx.stats["D-treg.cases"] + ctx.stats["D-train.cases"]
     d_eval = ctx.stats["D-tcell.inspections"] + ctx.stats["D-treg.cases"] + ctx.stats["D-train.positive"]
@@ -766,6 +768,7 @@ def run(ctx):
         fixpoint=a["fixpoint"],
         a_roots=a["roots"],
         a_frontier_left=a["frontier_left"],
+        a_canon_pairs_validated=ctx.stats["A.canon_pairs_validated"],
         d_executions=d_exec,
         profiles=len(PROFILE_SPECS[:2] if tier == "quick" else PROFILE_SPECS),
         rule_sets=len(rule_sets(tier)),
